@@ -116,10 +116,25 @@ theorem countQ_typeToks (p : Pkg) : ∀ e : TExpr, countQ (typeToks p e) = quals
     simp [typeToks, quals, countQ, countQ_append, countQ_typeToks p k, countQ_typeToks p v]
   | .struct _ => by simp [typeToks, quals, countQ]
 
-/-- Lemma A: with at most one declared type mentioned, the go/types string is the source spelling. -/
-theorem typeStringLocal_plain (p : Pkg) (e : TExpr) (h : quals p e ≤ 1) : typeStringLocal p e = plain e := by
+/-- `strings.Replace(s, pkgDot, "", -1)` (the repaired parser, `dropsFirstQualOnly` off) removes every qualifier. -/
+theorem render_all (p : Pkg) (hp : p.dropsFirstQualOnly = false) : ∀ (ts : List TTok) (b : Bool),
+    renderDropFirst p ts b = unq ts
+  | [], _ => rfl
+  | .lit s :: r, b => by
+    simp only [renderDropFirst, unq]
+    rw [render_all p hp r b]
+  | .qual n :: r, b => by
+    simp only [renderDropFirst, unq, hp, Bool.and_false, Bool.false_eq_true, if_false]
+    rw [render_all p hp r true]
+
+/-- Lemma A: for the repaired parser, or with at most one declared type mentioned, the go/types string is the
+source spelling. -/
+theorem typeStringLocal_plain (p : Pkg) (e : TExpr) (h : p.dropsFirstQualOnly = false ∨ quals p e ≤ 1) :
+    typeStringLocal p e = plain e := by
   unfold typeStringLocal
-  rw [render_le_one p _ false (by simpa [countQ_typeToks] using h), unq_typeToks]
+  rcases h with hp | h
+  · rw [render_all p hp, unq_typeToks]
+  · rw [render_le_one p _ false (by simpa [countQ_typeToks] using h), unq_typeToks]
 
 /-! ## the go/ast side -/
 
@@ -230,27 +245,30 @@ theorem astStr_plain (p : Pkg) : ∀ (f : Nat) (e : TExpr), AgreeOK p f false e 
     | struct fs => simp [agreeOK_struct_false] at h
 
 
-theorem quals_le_one (p : Pkg) : ∀ (f : Nat) (e : TExpr), AgreeOK p f false e = true → quals p e ≤ 1 := by
+/-- What the quals clause of `AgreeOK` gives: the parser is the repaired one, or the expression mentions at most
+one declared type. -/
+theorem quals_le_one (p : Pkg) : ∀ (f : Nat) (e : TExpr), AgreeOK p f false e = true →
+    p.dropsFirstQualOnly = false ∨ quals p e ≤ 1 := by
   intro f
   induction f with
   | zero => intro e h; simp [AgreeOK] at h
   | succ f ih =>
     intro e h
     cases e with
-    | name n => simp only [quals]; split <;> omega
+    | name n => right; simp only [quals]; split <;> omega
     | star x =>
       rw [AgreeOK] at h
       simp only [Bool.and_eq_true] at h
       simpa [quals] using ih x h.2
     | slice x =>
       rw [AgreeOK] at h
-      simp only [Bool.and_eq_true, decide_eq_true_eq] at h
+      simp only [Bool.and_eq_true, Bool.or_eq_true, Bool.not_eq_true', decide_eq_true_eq] at h
       simpa [quals] using h.1
     | map k v =>
       rw [AgreeOK] at h
-      simp only [Bool.and_eq_true, decide_eq_true_eq] at h
+      simp only [Bool.and_eq_true, Bool.or_eq_true, Bool.not_eq_true', decide_eq_true_eq] at h
       simpa [quals] using h.1.1
-    | struct fs => simp [quals]
+    | struct fs => right; simp [quals]
 
 /-- The `typn` the go/ast parser leaves on an admitted expression is never empty … -/
 theorem ast_typn_nonempty (p : Pkg) : ∀ (f : Nat) (e : TExpr), AgreeOK p f false e = true →
